@@ -1,6 +1,9 @@
 // ---- /verif/kani/kem.rs: appended to src/kem.rs in the Kani scratch copy ----
 #[cfg(kani)]
 mod verif_kani {
+    // the crate is no_std: names needed by Kani's generated concrete-playback tests
+    extern crate std as verif_std;
+    #[allow(unused_imports)] use verif_std::{vec, vec::Vec};
     use super::*;
     use crate::kem::X25519HkdfSha256;
 
